@@ -21,15 +21,46 @@ def run(spec, acc, ctx, mode):
     for cid, cfg, cls, db, info in sse.iter_cases(spec, ctx):
         shadow = copy.deepcopy(db)
         cp = gen.caps(scheme, cfg)
-        # every other case re-uses the scheme object of an earlier case with the identical configuration
+        # Hidden state across calls: half of the cases re-use the scheme OBJECT of an earlier case with the identical
+        # configuration, and most of those also re-use its KEY (a client that re-encrypts an updated database under
+        # its key), sharing a few keywords with the earlier database.  Afterwards the EARLIER index is searched again.
         ck = json.dumps(cfg, sort_keys=True, default=str)
-        reuse = objects.get(ck) if rng.random() < 0.5 else None
-        st = sse.Setup(scheme, cfg, db, sse_obj=reuse)
+        prev = objects.get(ck) if rng.random() < 0.5 else None
+        same_key = prev is not None and rng.random() < 0.6
+        if same_key:
+            for old_w in rng.sample(sorted(prev["db"]), min(2, len(prev["db"]))):
+                if old_w not in db and len(old_w) <= cp["kw_limit"] and len(db) > 1:
+                    victim = rng.choice(sorted(db))
+                    db[old_w] = db.pop(victim)
+            shadow = copy.deepcopy(db)
+        st = sse.Setup(scheme, cfg, db, sse_obj=prev["obj"] if prev else None, key=prev["key"] if same_key else None)
+        acc.count("scheme_objects.reused-with-key" if same_key else "scheme_objects.reused" if prev else
+                  "scheme_objects.fresh")
+        if st.error is None and prev is not None:
+            # the earlier index must still answer as before, whatever the object has done since
+            old = prev
+            words = [(w, True) for w in rng.sample(sorted(old["db"]), min(2, len(old["db"])))] if mode == "present" \
+                else [(w, False) for w, _ in gen.absent_keywords(rng, old["db"], cp["kw_limit"], k_random=1, k_close=1)]
+            for w, present in words:
+                acc.count("earlier_index_searches")
+                try:
+                    got = old["obj"].Search(old["edb"], old["obj"].TokenGen(old["key"], w)).get_result_list()
+                    want = old["db"][w] if present else []
+                    if not sse.result_matches(scheme, got, want):
+                        acc.violation(f"{short}:earlier-index-answers-differently",
+                                      f"{scheme}: after a later EDBSetup on the same scheme object, an earlier index returns "
+                                      f"{len(got)} ids for a{' stored' if present else 'n absent'} keyword (expected {len(want)})",
+                                      sse.case_desc(scheme, cid, cfg, cls, shadow, {"earlier_db": old["db"], "keyword": w}))
+                except Exception as e:
+                    acc.violation(f"{short}:earlier-index-search-raised:{exc_site(e)}",
+                                  f"{scheme}: after a later EDBSetup on the same scheme object, searching an earlier index "
+                                  f"raised {type(e).__name__}: {e}",
+                                  sse.case_desc(scheme, cid, cfg, cls, shadow, {"earlier_db": old["db"], "keyword": w}))
+        earlier_keywords = [w for w in (prev["db"] if same_key else {}) if w not in shadow]
         if st.error is None:
-            objects[ck] = st.sse
-            if len(objects) > 64:
+            objects[ck] = {"obj": st.sse, "key": st.key, "db": shadow, "edb": st.edb}
+            if len(objects) > 48:
                 objects.pop(next(iter(objects)))
-        acc.count("scheme_objects.reused" if reuse is not None else "scheme_objects.fresh")
         acc.count("cases")
         acc.count(f"cases.{short}")
         acc.add("classes." + short, cls)
@@ -72,7 +103,8 @@ def run(spec, acc, ctx, mode):
                                   f"expected {len(shadow[w])} (class {cls}, N={info['N']})",
                                   sse.case_desc(scheme, cid, cfg, cls, shadow, {"keyword": w}))
         else:
-            for w, fam in gen.absent_keywords(rng, shadow, cp["kw_limit"]):
+            for w, fam in gen.absent_keywords(rng, shadow, cp["kw_limit"]) + \
+                    [(w, "stored-earlier-under-this-key") for w in earlier_keywords[:6]]:
                 acc.count("searches.absent")
                 acc.count(f"searches.absent.{short}")
                 acc.count("absent_family." + fam)
@@ -150,7 +182,10 @@ def finish(m, tier, mode, min_searches):
         "searches_compared": c.get(f"searches.{mode}", 0),
         "pi2lev_cases_seen": sorted(m["sets"].get("pi2lev_cases", [])),
         "insitu_contract_evaluations": {k: v for k, v in c.items() if k.startswith("insitu.")},
-        "scheme_objects": {"fresh": c.get("scheme_objects.fresh", 0), "reused_from_an_earlier_case": c.get("scheme_objects.reused", 0)},
+        "scheme_objects": {"fresh": c.get("scheme_objects.fresh", 0),
+                           "reused_from_an_earlier_case_fresh_key": c.get("scheme_objects.reused", 0),
+                           "reused_with_the_earlier_key": c.get("scheme_objects.reused-with-key", 0),
+                           "searches_of_the_earlier_index_afterwards": c.get("earlier_index_searches", 0)},
     }
     if mode == "present":
         cov["postings_compared"] = c.get("postings_compared", 0)
